@@ -25,6 +25,7 @@ class Sent(object):
         self.expect = []         # (leaf value, group or None)
         self.where = []          # token index of each expectation (None for keyword-carried ones)
         self.dropped = []        # values the grammar accepts but the current parser does not keep (known finding)
+        self.pairs = []          # (keyword, leaf): the tree must hold the value paired with ITS clause keyword
 
     def kw(self, text):
         self.toks.extend(lex_text(text, self.dialect))
@@ -57,6 +58,13 @@ class Sent(object):
         inner = mark(inner, 'zq ')
         return self.val('QUOTED_STRING', '"' + inner + '"', leaf=inner, grp=grp, dropped=dropped)
 
+    def kwtext(self, keyword, inner, grp=None):
+        """clause keyword followed by its text; the parser keeps such texts as (keyword, text) pairs"""
+        self.kw(keyword)
+        self.text(inner, grp=grp)
+        self.pairs.append((keyword, self.expect[-1][0]))
+        return self
+
     def qtext(self, quoted_value, grp=None):
         """quoted token given WITH its quotes (symbolic string): the leaf is the value minus the quotes"""
         return self.val('QUOTED_STRING', quoted_value, leaf=quoted_value[1:len(quoted_value) - 1], grp=grp)
@@ -78,6 +86,7 @@ class Sent(object):
         self.toks.extend(other.toks)
         self.expect.extend(other.expect)
         self.dropped.extend(other.dropped)
+        self.pairs.extend(other.pairs)
         return self
 
 
@@ -101,6 +110,31 @@ def _same(a, b):
     if sa != sb:
         return False
     return a == b
+
+
+def tuples_of(x, out):
+    if isinstance(x, tuple):
+        out.append(x)
+    if isinstance(x, (tuple, list)):
+        for e in x:
+            tuples_of(e, out)
+    elif isinstance(x, dict):
+        for k, v in x.items():
+            tuples_of(v, out)
+    return out
+
+
+def check_pairs(tree, pairs):
+    """each (clause keyword, text) is present as such a pair: a text is never attached to another clause's keyword"""
+    tups = tuples_of(tree, [])
+    for kw, leaf in pairs:
+        found = False
+        for t in tups:
+            if len(t) == 2 and t[0] == kw and _same(t[1], leaf):
+                found = True
+        if not found:
+            return False
+    return True
 
 
 def check_leaves(tree, expect):
@@ -211,9 +245,9 @@ def f_value(shape, a, b):
 
 def f_object_identity(ref, shape, a, b):
     s = Sent()
-    s.lc('~oiname').kw('OBJECT-IDENTITY STATUS').lc('~status').kw('DESCRIPTION').text('~descr')
+    s.lc('~oiname').kw('OBJECT-IDENTITY STATUS').lc('~status').kwtext('DESCRIPTION', '~descr')
     if ref:
-        s.kw('REFERENCE').text('~ref')
+        s.kwtext('REFERENCE', '~ref')
     s.kw('::= {')
     oid_value(s, shape, a, b)
     return s.lit('}')
@@ -226,14 +260,14 @@ def f_object_type(variant, units, access, descr, ref, idx, nidx, im0, im1, defva
     s.lc('~otname').kw('OBJECT-TYPE SYNTAX')
     syntax(s, variant, a, b)
     if units:
-        s.kw('UNITS').text('~units')
+        s.kwtext('UNITS', '~units')
     if access:
         s.kw('MAX-ACCESS' if dialect == 'smiV2' else 'ACCESS').lc('~access')
     s.kw('STATUS').lc('~status')
     if descr:
-        s.kw('DESCRIPTION').text('~descr')
+        s.kwtext('DESCRIPTION', '~descr')
     if ref:
-        s.kw('REFERENCE').text('~ref')
+        s.kwtext('REFERENCE', '~ref')
     if idx == 1:
         s.kw('INDEX {')
         ims = [im0, im1, False]
@@ -274,9 +308,9 @@ def f_trap_type(nvars, descr, ref, number, upper):
         names(s, nvars, 'vars', '~var')
         s.lit('}')
     if descr:
-        s.kw('DESCRIPTION').text('~descr')
+        s.kwtext('DESCRIPTION', '~descr')
     if ref:
-        s.kw('REFERENCE').text('~ref')
+        s.kwtext('REFERENCE', '~ref')
     return s.kw('::=').num(number)
 
 
@@ -287,9 +321,9 @@ def f_notification_type(nobj, ref):
         s.kw('OBJECTS {')
         names(s, nobj, 'objs', '~obj')
         s.lit('}')
-    s.kw('STATUS').lc('~status').kw('DESCRIPTION').text('~descr')
+    s.kw('STATUS').lc('~status').kwtext('DESCRIPTION', '~descr')
     if ref:
-        s.kw('REFERENCE').text('~ref')
+        s.kwtext('REFERENCE', '~ref')
     s.kw('::= {')
     oid_value(s, 0, 5, 0)
     return s.lit('}')
@@ -300,8 +334,8 @@ def f_module_identity(nrev, subj):
     s.lc('~miname').kw('MODULE-IDENTITY')
     if subj:
         s.kw('SUBJECT-CATEGORIES {').lc('~cat', dropped=True).lit('(').num(3, dropped=True).lit(')').lit('}')
-    s.kw('LAST-UPDATED').text('~200001010000Z').kw('ORGANIZATION').text('~org').kw('CONTACT-INFO').text('~contact') \
-        .kw('DESCRIPTION').text('~descr')
+    s.kwtext('LAST-UPDATED', '~200001010000Z').kwtext('ORGANIZATION', '~org').kwtext('CONTACT-INFO', '~contact') \
+        .kwtext('DESCRIPTION', '~descr')
     for i in range(nrev):
         s.kw('REVISION').text('~rev%d' % i, 'revs').kw('DESCRIPTION').text('~revd%d' % i, 'revs')
     s.kw('::= {')
@@ -313,9 +347,9 @@ def f_group(notif, n, ref):
     s = Sent()
     s.lc('~grname').kw('NOTIFICATION-GROUP NOTIFICATIONS {' if notif else 'OBJECT-GROUP OBJECTS {')
     names(s, n, 'members', '~mem')
-    s.kw('} STATUS').lc('~status').kw('DESCRIPTION').text('~descr')
+    s.kw('} STATUS').lc('~status').kwtext('DESCRIPTION', '~descr')
     if ref:
-        s.kw('REFERENCE').text('~ref')
+        s.kwtext('REFERENCE', '~ref')
     s.kw('::= {')
     oid_value(s, 0, 2, 0)
     return s.lit('}')
@@ -324,7 +358,7 @@ def f_group(notif, n, ref):
 def f_module_compliance(named, nmand, c0, c1, ncl, refine):
     """clauses: 0 GROUP, 1 OBJECT (refinements SYNTAX/WRITE-SYNTAX/MIN-ACCESS when `refine`)"""
     s = Sent()
-    s.lc('~mcname').kw('MODULE-COMPLIANCE STATUS').lc('~status').kw('DESCRIPTION').text('~descr').kw('MODULE')
+    s.lc('~mcname').kw('MODULE-COMPLIANCE STATUS').lc('~status').kwtext('DESCRIPTION', '~descr').kw('MODULE')
     if named:
         s.uc('~OTHER-MIB')
     if nmand:
@@ -348,9 +382,9 @@ def f_module_compliance(named, nmand, c0, c1, ncl, refine):
 def f_agent_capabilities(ref, supports, variation):
     s = Sent()
     s.lc('~acname').kw('AGENT-CAPABILITIES PRODUCT-RELEASE').text('~release').kw('STATUS').lc('~status') \
-        .kw('DESCRIPTION').text('~descr')
+        .kwtext('DESCRIPTION', '~descr')
     if ref:
-        s.kw('REFERENCE').text('~ref')
+        s.kwtext('REFERENCE', '~ref')
     if supports:
         s.kw('SUPPORTS').uc('~SUP-MIB', dropped=True).kw('INCLUDES {').lc('~incl', dropped=True).lit('}')
         if variation:
@@ -370,10 +404,10 @@ def f_type(form, variant, display, ref, a, b):
     elif form == 1:
         s.kw('TEXTUAL-CONVENTION')
         if display:
-            s.kw('DISPLAY-HINT').text('~hint')
-        s.kw('STATUS').lc('~status').kw('DESCRIPTION').text('~descr')
+            s.kwtext('DISPLAY-HINT', '~hint')
+        s.kw('STATUS').lc('~status').kwtext('DESCRIPTION', '~descr')
         if ref:
-            s.kw('REFERENCE').text('~ref')
+            s.kwtext('REFERENCE', '~ref')
         s.kw('SYNTAX')
         syntax(s, variant, a, b)
     elif form == 2:
@@ -433,4 +467,5 @@ def substitute(sent, i, value):
     else:
         leaf = value
     sent.expect[i] = (leaf, grp)
+    sent.pairs = [(kw, leaf if (isinstance(pl, str) and pl == leaf_old) else pl) for kw, pl in sent.pairs]
     return ttype
